@@ -42,7 +42,9 @@ fn fails<P: Property>(s: &P::Scenario) -> Option<Violation> {
 }
 fn parse<P: Property>(v: &Value) -> Option<P::Scenario> {
     let s: P::Scenario = serde_json::from_value(v.clone()).ok()?;
-    if P::valid(&s) {
+    // a domain predicate that itself panics on a mutated value (an overflow on an extreme integer, say) must read as
+    // "outside the domain", not abort the fuzzer from inside its mutator callback
+    if std::panic::catch_unwind(std::panic::AssertUnwindSafe(|| P::valid(&s))).unwrap_or(false) {
         Some(s)
     } else {
         None
